@@ -47,10 +47,10 @@ TIERS = {
                "io_2rd2tns", "io_pipe2tns", "io_rdwr2tns", "io_accept2tns", "io_2rd2t"],
         "run": ["io_rw1", "io_rw2t", "io_2rd1", "io_2rd2t", "io_rdwr1", "io_rdwr2t", "io_close1", "io_close2t", "io_closerace2t",
                 "io_closewr1", "io_closewr2t", "io_pipe1", "io_pipe2t", "io_accept1", "io_accept2t"],
-        "seeds": 250, "mc_timeout": 2400, "mc_par": 3, "mc_workers": 2, "mc_bounded": {},
+        "seeds": 200, "mc_timeout": 1200, "mc_par": 3, "mc_workers": 2, "mc_bounded": {},
     },
 }
-MAY_TIMEOUT = {"io_2rd2t", "io_accept2tns", "io_rdwr2tns"}  # thorough: state count is what was explored within the limit
+MAY_TIMEOUT = {"io_2rd2t", "io_2rd2tns", "io_pipe2tns", "io_accept2tns", "io_rdwr2tns", "io_rw2t", "io_close2t", "io_closerace2t"}  # thorough: state count is what was explored within the limit
 
 
 def tree_hash(paths):
